@@ -95,7 +95,7 @@ def gen_chart(rng, game, keys=None, n=None, style=None, n_bpm=None, empty_p=0.12
     ch = dict(keys=keys, hits=hits, holds=holds, bpms=gen_bpms(rng, t0, max(t_max, t0 + 1000), n_bpm))
     if game in ("osu", "qua"):
         ch["svs"] = [[float(rng.uniform(t0, t_max + 10)) if rng.random() < 0.7 else float(rng.choice(ch["bpms"])[0]),
-                      rng.choice([0.5, 1.0, 1.5, 2.0, 0.75, 10.0, 0.01, rng.uniform(0.1, 4)])]
+                      rng.choice([0.5, 1.0, 1.5, 2.0, 0.75, 10.0, 0.01, rng.uniform(0.1, 4), 50.0, 0.001, -1.0])]
                      for _ in range(rng.choice([0, 0, 1, 3, 8]))]
     if game == "osu":
         ch["hit_x"] = [[rng.randrange(16), rng.randrange(4), rng.randrange(4), rng.randrange(3), rng.choice([0, 30, 70, 100]),
@@ -110,7 +110,7 @@ def gen_chart(rng, game, keys=None, n=None, style=None, n_bpm=None, empty_p=0.12
                           artist_unicode=rng.choice(TEXTS), creator=rng.choice(ASCII_TEXTS), version=rng.choice(ASCII_TEXTS + ["Hard 5"]),
                           audio_file_name=rng.choice(["audio.mp3", "song file.ogg"]), background_file_name=rng.choice(["bg.png", "", "b g.jpg"]),
                           preview_time=rng.choice([-1, 0, 12345, 60000]), circle_size=float(keys),
-                          tags=rng.choice([[], ["a", "b"], ["tag"]]), source=rng.choice(ASCII_TEXTS))
+                          tags=rng.choice([[], ["a", "b"], ["tag"], ["東方\u3000Project", "x"], ["no\u00a0break"]]), source=rng.choice(ASCII_TEXTS))
     elif game == "qua":
         ch["hit_x"] = [[rng.choice([[], [], ["a"], ["a", "b"]])] for _ in hits]
         ch["hold_x"] = [[rng.choice([[], [], ["k"]])] for _ in holds]
@@ -138,6 +138,8 @@ def gen_chart(rng, game, keys=None, n=None, style=None, n_bpm=None, empty_p=0.12
         if rng.random() < 0.3:
             _, r2 = gen_notes(rng, keys, 4, style)
             extra["rolls"] = r2
+        if rng.random() < 0.25:
+            extra["stops"] = [[float(rng.uniform(t0, t_max + 10)), rng.choice([100.0, 250.0, 600.0])] for _ in range(rng.randint(1, 3))]
         ch["extra"] = extra
         ch["meta"] = dict(chart_type=SM_TYPES[keys], description=rng.choice(ASCII_TEXTS), difficulty=rng.choice(["Easy", "Hard", "Edit"]),
                           difficulty_val=rng.randint(1, 20))
@@ -247,7 +249,11 @@ def build_chart(game, ch, via="items"):
         tab = dict(mines=(SMMineList, SMMine), lifts=(SMLiftList, SMLift), fakes=(SMFakeList, SMFake),
                    keysounds=(SMKeySoundList, SMKeySound))
         for kind, rows in ch.get("extra", {}).items():
-            if kind == "rolls":
+            if kind == "stops":
+                from reamber.sm.SMStop import SMStop
+                from reamber.sm.lists import SMStopList
+                m.stops = _mk_list(SMStopList, SMStop, rows, ["offset", "length"], via)
+            elif kind == "rolls":
                 m.rolls = _mk_list(SMRollList, SMRoll, rows, ["offset", "column", "length"], via)
             else:
                 setattr(m, kind, _mk_list(tab[kind][0], tab[kind][1], rows, ["offset", "column"], via))
